@@ -81,6 +81,7 @@ static enum DeviceState
 raw_start(struct Storage* self_)
 {
     struct Raw* self = containerof(self_, struct Raw, writer);
+    self->offset = 0; // each acquisition writes its own file from the start
     CHECK(file_create(
       &self->file, self->properties.uri.str, self->properties.uri.nbytes));
     LOG("RAW: Frame header size %d bytes", (int)sizeof(struct VideoFrame));
